@@ -487,13 +487,62 @@ Proof.
   destruct (cv_tmsgs_ext _ _ Hle _ _ _ _ _ HF _ _ _ _ _ _ E E') as [S ->]. split; [exact S|reflexivity].
 Qed.
 
+Lemma sub_list_app_r0 {A} (R : A -> A -> Prop) l l' x : sub_list R l l' -> sub_list R l (l' ++ x).
+Proof. intros H. induction H; cbn [app]; [apply sl_nil|apply sl_keep; assumption|apply sl_skip; assumption]. Qed.
+
+(* messages appended to a topic whose messages all carry names: the names of the rpcs / messages
+   do not depend on the number of messages, the earlier ones are a prefix *)
+Lemma cv_tmsgs_single_irrel ev tn virt l s s' :
+  forallb tm_named l = true -> cv_tmsgs ev tn s virt l = cv_tmsgs ev tn s' virt l.
+Proof.
+  induction l as [|t r IH]; intros H; [reflexivity|]. cbn [forallb] in H. apply andb_true_iff in H. destruct H as [Ht Hr].
+  cbn [J5sConvert.cv_tmsgs]. unfold tm_named in Ht. destruct (tm_name t) as [n|]; [|discriminate Ht].
+  rewrite (IH Hr). reflexivity.
+Qed.
+
+Lemma cv_tmsgs_app_inv ev tn s virt extra : forall l ms' ds' is',
+  cv_tmsgs ev tn s virt (l ++ extra) = Ok (ms', ds', is') ->
+  exists ms1 ds1 is1 ms2 ds2 is2, cv_tmsgs ev tn s virt l = Ok (ms1, ds1, is1) /\
+    cv_tmsgs ev tn s virt extra = Ok (ms2, ds2, is2) /\ ms' = ms1 ++ ms2 /\ ds' = ds1 ++ ds2.
+Proof.
+  induction l as [|t r IH]; intros ms' ds' is' H'.
+  - cbn [app] in H'. exists [], [], [], ms', ds', is'. repeat split; [exact H'].
+  - cbn [J5sConvert.cv_tmsgs app] in H' |- *.
+    apply obind_ok in H'. destruct H' as (mn & Emn & H'). rewrite Emn. cbn [obind].
+    apply obind_ok in H'. destruct H' as (a & Ea & H'). rewrite Ea. cbn [obind].
+    apply obind_ok in H'. destruct H' as ([[cm cd] ci] & Er & H').
+    destruct (IH _ _ _ Er) as (ms1 & ds1 & is1 & ms2 & ds2 & is2 & E1 & E2 & -> & ->).
+    rewrite E1. cbn [obind]. inversion H'. subst.
+    eexists. eexists. eexists. exists ms2, ds2, is2. repeat split; [exact E2].
+Qed.
+
+Lemma accept_topic_ext_app ev ev' (Hle : env_le ev ev') tn topic_name rl virt l l1 extra ms ss is ms' ss' is' :
+  Forall2 tmsg_ext l l1 -> forallb tm_named l = true ->
+  accept_topic ev tn topic_name rl virt l = Ok (ms, ss, is) ->
+  accept_topic ev' tn topic_name rl virt (l1 ++ extra) = Ok (ms', ss', is') ->
+  sub_list msg_ext ms ms' /\ sub_list service_ext ss ss'.
+Proof.
+  intros HF Hn H H'. unfold J5sConvert.accept_topic in *.
+  rewrite (cv_tmsgs_single_irrel ev tn virt l (is_single l) (is_single (l1 ++ extra)) Hn) in H.
+  apply obind_ok in H. destruct H as ([[m1 d1] i1] & E & H).
+  apply obind_ok in H'. destruct H' as ([[m1' d1'] i1'] & E' & H').
+  inversion H. inversion H'. subst. clear H H'.
+  destruct (cv_tmsgs_app_inv _ _ _ _ _ _ _ _ _ E') as (ms1 & ds1 & is1 & ms2 & ds2 & is2 & E1 & _ & -> & ->).
+  destruct (cv_tmsgs_ext _ _ Hle _ _ _ _ _ HF _ _ _ _ _ _ E E1) as [S ->].
+  split; [apply sub_list_app_r0; exact S|].
+  apply sl_keep; [|constructor]. unfold service_ext. cbn [ds_name ds_topic ds_methods].
+  repeat split. exists ds2. reflexivity.
+Qed.
+
 Lemma cv_topic_ext ev ev' (Hle : env_le ev ev') t t' ms ss is ms' ss' is' :
   topic_ext t t' ->
   cv_topic ev t = Ok (ms, ss, is) -> cv_topic ev' t' = Ok (ms', ss', is') ->
-  sub_list msg_ext ms ms' /\ ss' = ss.
+  sub_list msg_ext ms ms' /\ sub_list service_ext ss ss'.
 Proof.
-  intros Ht H H'. destruct Ht as [n l l' HF|n rq rq' rp rp' HF1 HF2|n en m m' Hm|n en m m' Hm];
+  intros Ht H H'. destruct Ht as [n l l' HF|n rq rq' rp rp' HF1 HF2|n en m m' Hm|n en m m' Hm|n l l1 extra HF Hn];
     cbn [J5sConvert.cv_topic] in H, H'.
+  5: { eapply accept_topic_ext_app; eassumption. }
+  all: cut (sub_list msg_ext ms ms' /\ ss' = ss); [intros [S0 ->]; split; [exact S0|apply sub_list_refl, svcs_refl]|].
   - eapply accept_topic_ext; eassumption.
   - apply obind_ok in H. destruct H as ([[am asv] ai] & Ea & H).
     apply obind_ok in H. destruct H as ([[cm csv] ci] & Ec & H).
@@ -613,9 +662,9 @@ Proof.
       apply facc_ext_add; try assumption; try constructor. apply sub_list_refl, svcs_refl.
     + apply obind_ok in H. destruct H as ([[ms1 ss1] is1] & E & H).
       apply obind_ok in H'. destruct H' as ([[ms1' ss1'] is1'] & E' & H').
-      destruct (cv_topic_ext _ _ Hle _ _ _ _ _ _ _ _ Htp E E') as [S ->].
+      destruct (cv_topic_ext _ _ Hle _ _ _ _ _ _ _ _ Htp E E') as [S S2].
       eapply IH; [| | |exact H|exact H']; try assumption.
-      apply facc_ext_add; try assumption; try constructor. apply sub_list_refl, svcs_refl.
+      apply facc_ext_add; try assumption; constructor.
 Qed.
 
 Lemma mk_file_ext path pkg a a' : facc_ext a a' -> file_ext (mk_file path pkg a) (mk_file path pkg a').
@@ -742,11 +791,26 @@ Qed.
 
 Lemma topic_ext_refl t : topic_ext t t.
 Proof. destruct t; constructor; try apply forall2_refl; try apply tmsg_ext_refl. Qed.
+Lemma named_forall2 l l' : Forall2 tmsg_ext l l' -> forallb tm_named l' = forallb tm_named l.
+Proof.
+  intros H. induction H as [|x y r r' [Hn _] _ IH]; [reflexivity|]. cbn [forallb]. rewrite IH. unfold tm_named. rewrite Hn. reflexivity.
+Qed.
+
 Lemma topic_ext_trans a c d : topic_ext a c -> topic_ext c d -> topic_ext a d.
 Proof.
-  intros H H'. destruct H; inversion H'; subst; constructor;
-    try (eapply forall2_trans; [exact tmsg_ext_trans| |]; eassumption);
-    try (eapply tmsg_ext_trans; eassumption).
+  intros H H'. destruct H as [n l l' HF|n rq rq' rp rp' HF1 HF2|n en m m' Hm|n en m m' Hm|n l l1 extra HF Hn].
+  - inversion H' as [n0 x y HF'| | | |n0 x y1 extra' HF' Hn']; subst.
+    + constructor. eapply forall2_trans; [exact tmsg_ext_trans| |]; eassumption.
+    + apply te_publish_app; [eapply forall2_trans; [exact tmsg_ext_trans| |]; eassumption|].
+      rewrite <- (named_forall2 _ _ HF). exact Hn'.
+  - inversion H'; subst. constructor; (eapply forall2_trans; [exact tmsg_ext_trans| |]; eassumption).
+  - inversion H'; subst. constructor. eapply tmsg_ext_trans; eassumption.
+  - inversion H'; subst. constructor. eapply tmsg_ext_trans; eassumption.
+  - inversion H' as [n0 x y HF'| | | |n0 x y1 extra' HF' Hn']; subst.
+    + apply Forall2_app_inv_l in HF'. destruct HF' as (y1 & y2 & Ha & Hb & ->).
+      apply te_publish_app; [eapply forall2_trans; [exact tmsg_ext_trans| |]; eassumption|exact Hn].
+    + apply Forall2_app_inv_l in HF'. destruct HF' as (z1 & z2 & Ha & Hb & ->).
+      rewrite <- app_assoc. apply te_publish_app; [eapply forall2_trans; [exact tmsg_ext_trans| |]; eassumption|exact Hn].
 Qed.
 
 Lemma element_ext_refl e : element_ext e e.
@@ -860,7 +924,7 @@ Proof. apply apply_at_ext. Qed.
 
 Lemma edit_element_ext e el : element_ext el (edit_element e el).
 Proof.
-  destruct e as [fi k p|fi k o|fi d|fi k mi p|fi k mi p|fi k mi p|fi k rt path act].
+  destruct e as [fi k p|fi k o|fi d|fi k mi p|fi k mi p|fi k mi p|fi k rt path act|fi k tm].
   7: { destruct rt as [|mi|mi|reply mi]; destruct el as [nm ps subs|nm ps subs|en|[nm base ms]|t];
          cbn [edit_element] in *; try apply element_ext_refl.
        - destruct (apply_at_ext act path ps subs) as [A B]. destruct (apply_at path act ps subs). constructor; assumption.
@@ -896,6 +960,9 @@ Proof.
       try (apply forall2_update_nth; [apply tmsg_ext_refl|]; intros x; split; [reflexivity|apply props_ext_snoc]);
       try (apply forall2_refl; apply tmsg_ext_refl);
       try (split; [reflexivity|apply props_ext_snoc]).
+  - destruct t as [n ms|n rq rp|n en m|n en m]; try apply element_ext_refl.
+    destruct (forallb tm_named ms) eqn:En; [|apply element_ext_refl].
+    constructor. apply te_publish_app; [apply forall2_refl; apply tmsg_ext_refl|exact En].
 Qed.
 
 Lemma update_edit_ext e l k : Forall2 element_ext l (update_nth k (edit_element e) l).
@@ -906,7 +973,7 @@ Qed.
 (* every C13 edit extends the source file in the sense of [file_src_ext] *)
 Theorem edit_file_ext e f : file_src_ext f (edit_file e f).
 Proof.
-  destruct e as [fi k p|fi k o|fi d|fi k mi p|fi k mi p|fi k mi p|fi k rt path act]; cbn [edit_file].
+  destruct e as [fi k p|fi k o|fi d|fi k mi p|fi k mi p|fi k mi p|fi k rt path act|fi k tm]; cbn [edit_file].
   3: { repeat split; try reflexivity. exists (jf_elements f), [d]. split; [|reflexivity].
        apply forall2_refl. apply element_ext_refl. }
   all: repeat split; try reflexivity; eexists; exists []; (split; [|cbn [jf_elements]; rewrite app_nil_r; reflexivity]).
